@@ -1,0 +1,10 @@
+//go:build verif
+
+package preprocessor
+
+import "github.com/internetarchive/Zeno/pkg/models"
+
+// PreprocessForVerif runs the preprocessing of one seed exactly as a worker does.
+func PreprocessForVerif(workerID string, seed *models.Item) {
+	preprocess(workerID, seed)
+}
